@@ -1,29 +1,149 @@
+/-
+  Lemmas behind Props/C02.lean: `assignTermini`, `setTermini`, `formalCharge`.
+-/
 import P2P.Model.Termini
 
 namespace P2P.Proofs.Termini
 open P2P P2P.Termini P2P.State
 
+/-! ### `setAt` -/
+
+theorem setAt_zero (a : TRes) (l : List TRes) (f : TRes → TRes) : setAt (a :: l) 0 f = f a :: l := by
+  simp only [setAt, List.mapIdx_cons, if_true]
+  congr 1
+  apply List.ext_getElem <;> simp
+
+theorem setAt_succ (a : TRes) (l : List TRes) (i : Nat) (f : TRes → TRes) :
+    setAt (a :: l) (i+1) f = a :: setAt l i f := by
+  simp [setAt, List.mapIdx_cons]
+
+theorem setAt_length (l : List TRes) (i : Nat) (f : TRes → TRes) : (setAt l i f).length = l.length := by
+  simp [setAt]
+
+theorem setAt_append_right (l m : List TRes) (i : Nat) (f : TRes → TRes) :
+    setAt (l ++ m) (l.length + i) f = l ++ setAt m i f := by
+  induction l with
+  | nil => simp
+  | cons a l ih =>
+    have : (a :: l).length + i = (l.length + i) + 1 := by simp; omega
+    rw [List.cons_append, this, setAt_succ, ih]; rfl
+
+theorem setAt_last (l : List TRes) (a : TRes) (f : TRes → TRes) :
+    setAt (l ++ [a]) l.length f = l ++ [f a] := by
+  have := setAt_append_right l [a] 0 f
+  simpa [setAt_zero] using this
+
+theorem setAt_map {β} (g : TRes → β) (l : List TRes) (i : Nat) (f : TRes → TRes) (hf : ∀ r, g (f r) = g r) :
+    (setAt l i f).map g = l.map g := by
+  induction l generalizing i with
+  | nil => simp [setAt]
+  | cons a l ih =>
+    cases i with
+    | zero => simp [setAt_zero, hf]
+    | succ i => simp [setAt_succ, ih]
+
 theorem cyclic_none_core (nn nc : Bool) (chain : List TRes) (r0 : TRes) (rest : List TRes) (hc : chain = r0 :: rest)
     (hN : r0.atoms.contains (str "N") = true) (hC : (chain.getLastD r0).atoms.contains (str "C") = true) :
     assignTermini nn nc true chain = some chain := by
-  sorry
+  subst hc
+  simp only [assignTermini]
+  rw [hN, hC]
+  simp
 
 theorem assign_preserves_core (nn nc cyc : Bool) (chain out : List TRes) (h : assignTermini nn nc cyc chain = some out) :
     out.map (fun r => (r.id, r.kind, r.name, r.atoms)) = chain.map (fun r => (r.id, r.kind, r.name, r.atoms)) := by
-  sorry
+  cases chain with
+  | nil => simp [assignTermini] at h
+  | cons r0 rest =>
+    simp only [assignTermini] at h
+    split at h
+    · cases h; rfl
+    · have hN : ∀ (c : List TRes),
+        (if r0.kind = .amino then
+          setAt c 0 (fun r => patch { r with isN := true } (if nn || r.nHeavy2 then "NEUTRAL-NTERM" else "NTERM"))
+        else if r0.kind = .nucleic then setAt c 0 (fun r => patch { r with is5 := true } "5TERM")
+        else c).map (fun r => (r.id, r.kind, r.name, r.atoms)) = c.map (fun r => (r.id, r.kind, r.name, r.atoms)) := by
+        intro c
+        split
+        · exact setAt_map _ _ _ _ (fun r => rfl)
+        · split
+          · exact setAt_map _ _ _ _ (fun r => rfl)
+          · rfl
+      rw [← hN (r0 :: rest)]
+      split at h
+      · cases h; exact setAt_map _ _ _ _ (fun r => rfl)
+      · split at h
+        · cases h; exact setAt_map _ _ _ _ (fun r => rfl)
+        · split at h
+          · cases h; exact setAt_map _ _ _ _ (fun r => rfl)
+          · cases h; exact setAt_map _ _ _ _ (fun r => rfl)
+          · cases h; rfl
+
+
+/-- the N-terminus update -/
+def ntermF (nn : Bool) (r : TRes) : TRes :=
+  patch { r with isN := true } (if nn || r.nHeavy2 then "NEUTRAL-NTERM" else "NTERM")
+/-- the C-terminus update -/
+def ctermF (nc : Bool) (r : TRes) : TRes :=
+  patch { r with isC := true } (if nc then "NEUTRAL-CTERM" else "CTERM")
+
+/-- `assignTermini` on a chain starting with an amino residue, cyclic test failed -/
+theorem assign_amino_head (nn nc : Bool) (r0 : TRes) (rest : List TRes) (h0 : r0.kind = .amino) :
+    assignTermini nn nc false (r0 :: rest) =
+      if ((r0 :: rest).getLastD r0).kind = .amino then some (setAt (ntermF nn r0 :: rest) rest.length (ctermF nc))
+      else if ((r0 :: rest).getLastD r0).kind = .nucleic then
+        some (setAt (ntermF nn r0 :: rest) rest.length (fun r => patch { r with is3 := true } "3TERM"))
+      else
+        match lastScan (ntermF nn r0 :: rest) (rest.length + 1) with
+        | some (i, true) => some (setAt (ntermF nn r0 :: rest) i (ctermF nc))
+        | some (i, false) => some (setAt (ntermF nn r0 :: rest) i (fun r => patch { r with is3 := true } "3TERM"))
+        | none => some (ntermF nn r0 :: rest) := by
+  simp only [assignTermini, Bool.and_false, Bool.false_eq_true, if_false]
+  rw [if_pos h0, setAt_zero]
+  simp only [List.length_cons, Nat.add_sub_cancel]
+  rfl
 
 theorem peptide_chain_termini_core (nn nc : Bool) (r0 rl : TRes) (mid : List TRes)
     (ha : ∀ r ∈ r0 :: mid ++ [rl], r.kind = .amino) :
     assignTermini nn nc false (r0 :: mid ++ [rl]) = some (
       patch { r0 with isN := true } (if nn || r0.nHeavy2 then "NEUTRAL-NTERM" else "NTERM") :: mid ++
       [patch { rl with isC := true } (if nc then "NEUTRAL-CTERM" else "CTERM")]) := by
-  sorry
+  have h0 : r0.kind = .amino := ha r0 (by simp)
+  have hl : rl.kind = .amino := ha rl (by simp)
+  have hlast : (r0 :: (mid ++ [rl])).getLastD r0 = rl := by
+    rw [← List.cons_append, List.getLastD_concat]
+  rw [List.cons_append, assign_amino_head nn nc r0 _ h0, hlast, if_pos hl]
+  have : (mid ++ [rl]).length = (ntermF nn r0 :: mid).length := by simp
+  rw [this, ← List.cons_append, setAt_last]
+  rfl
 
 theorem single_residue_termini_core (nn nc : Bool) (r : TRes) (ha : r.kind = .amino) :
     assignTermini nn nc false [r] = some [
       patch { (patch { r with isN := true } (if nn || r.nHeavy2 then "NEUTRAL-NTERM" else "NTERM")) with isC := true }
         (if nc then "NEUTRAL-CTERM" else "CTERM")] := by
-  sorry
+  have hlast : [r].getLastD r = r := rfl
+  rw [assign_amino_head nn nc r _ ha, hlast, if_pos ha, List.length_nil, setAt_zero]
+  rfl
+
+theorem lastScan_tail (pre tail : List TRes) (a : TRes) (ha : a.kind = .amino)
+    (hk : ∀ r ∈ tail, (r.kind = .water ∨ r.kind = .other) ∧ r.name ≠ str "NH2" ∧ r.name ≠ str "NME")
+    (k : Nat) (hle : k ≤ tail.length) :
+    lastScan (pre ++ [a] ++ tail) (pre.length + 1 + k) = some (pre.length, true) := by
+  induction k with
+  | zero =>
+    simp [lastScan, ha]
+  | succ k ih =>
+    have hk' : k < tail.length := by omega
+    have e : pre.length + 1 + (k + 1) = (pre.length + 1 + k) + 1 := by omega
+    have hget : (pre ++ [a] ++ tail)[pre.length + 1 + k]? = some tail[k] := by
+      rw [List.getElem?_append_right (by simp)]
+      simp [hk']
+    rw [e, lastScan, hget]
+    obtain ⟨h1, h2, h3⟩ := hk tail[k] (List.getElem_mem hk')
+    have n1 : tail[k].kind ≠ .amino := by rcases h1 with h | h <;> simp [h]
+    have n2 : tail[k].kind ≠ .nucleic := by rcases h1 with h | h <;> simp [h]
+    simp only [n1, n2, h2, h3, if_false, decide_false, Bool.or_false, Bool.false_eq_true]
+    exact ih (by omega)
 
 theorem cterm_through_trailing_core (nn nc : Bool) (r0 rl : TRes) (mid tail : List TRes)
     (ha : ∀ r ∈ r0 :: mid ++ [rl], r.kind = .amino) (ht : tail ≠ [])
@@ -31,22 +151,161 @@ theorem cterm_through_trailing_core (nn nc : Bool) (r0 rl : TRes) (mid tail : Li
     assignTermini nn nc false (r0 :: mid ++ [rl] ++ tail) = some (
       patch { r0 with isN := true } (if nn || r0.nHeavy2 then "NEUTRAL-NTERM" else "NTERM") :: mid ++
       [patch { rl with isC := true } (if nc then "NEUTRAL-CTERM" else "CTERM")] ++ tail) := by
-  sorry
+  have h0 : r0.kind = .amino := ha r0 (by simp)
+  have hl : rl.kind = .amino := ha rl (by simp)
+  have hlast : (r0 :: (mid ++ [rl] ++ tail)).getLastD r0 = tail.getLast ht := by
+    rw [List.getLastD_eq_getLast?, ← List.cons_append, ← List.cons_append, List.getLast?_append,
+      List.getLast?_eq_some_getLast ht]
+    rfl
+  obtain ⟨h1, _, _⟩ := hk (tail.getLast ht) (List.getLast_mem ht)
+  have n1 : (tail.getLast ht).kind ≠ .amino := by rcases h1 with h | h <;> simp [h]
+  have n2 : (tail.getLast ht).kind ≠ .nucleic := by rcases h1 with h | h <;> simp [h]
+  rw [List.cons_append, List.cons_append, assign_amino_head nn nc r0 _ h0, hlast, if_neg n1, if_neg n2]
+  have hlen : (mid ++ [rl] ++ tail).length + 1 = (ntermF nn r0 :: mid).length + 1 + tail.length := by
+    simp; omega
+  have hscan := lastScan_tail (ntermF nn r0 :: mid) tail rl hl hk tail.length (Nat.le_refl _)
+  simp only [List.cons_append] at hscan
+  rw [hlen, hscan]
+  simp only
+  have := setAt_append_right (ntermF nn r0 :: mid) ([rl] ++ tail) 0 (ctermF nc)
+  simp only [Nat.add_zero, List.cons_append, List.nil_append, setAt_zero, List.append_assoc] at this ⊢
+  rw [this]
+  rfl
+
+/-! ### `setTermini` without hidden chain ends -/
+
+theorem splitChain_nocut (nn nc : Bool) (rest : List TRes) (hfix : ∀ r ∈ rest, fixflag r = false) :
+    ∀ (fuel : Nat) (scan pending : List TRes) (done : List (List TRes)) (bits : List Bool),
+      splitChain nn nc fuel scan rest pending done bits = some (done ++ [rest], bits) := by
+  intro fuel
+  induction fuel with
+  | zero => intro scan pending done bits; simp [splitChain]
+  | succ fuel ih =>
+    intro scan pending done bits
+    cases scan with
+    | nil => simp [splitChain]
+    | cons r0 scan =>
+      rw [splitChain]
+      split
+      · exact ih _ _ _ _
+      · rename_i r hr
+        have hm : r ∈ rest := List.mem_of_find?_eq_some hr
+        simp only [hfix r hm, Bool.false_eq_true, if_false]
+        exact ih _ _ _ _
+
+theorem firstPass (nn nc : Bool) :
+    ∀ (chains : List (List TRes)) (bits : List Bool) (out acc : List (List TRes)),
+      bits.length ≥ chains.length →
+      (chains.zip bits).mapM (fun (c, b) => assignTermini nn nc b c) = some out →
+      chains.foldlM (fun (acc, bits) ch => do
+        let ch' ← assignTermini nn nc (bits.headD false) ch
+        pure (acc ++ [ch'], bits.drop 1)) (acc, bits) = some (acc ++ out, bits.drop chains.length) := by
+  intro chains
+  induction chains with
+  | nil =>
+    intro bits out acc _ h
+    simp at h
+    subst h
+    simp
+  | cons c chains ih =>
+    intro bits out acc hlen h
+    cases bits with
+    | nil => simp at hlen
+    | cons b bits =>
+      simp only [List.zip_cons_cons, List.mapM_cons] at h
+      cases hc : assignTermini nn nc b c with
+      | none => simp [hc] at h
+      | some c' =>
+        cases hr : (chains.zip bits).mapM (fun (c, b) => assignTermini nn nc b c) with
+        | none => simp [hc, hr] at h
+        | some out' =>
+          simp [hc, hr] at h
+          subst h
+          simp only [List.foldlM_cons, List.headD_cons, hc, List.drop_succ_cons, List.drop_zero]
+          have := ih bits out' (acc ++ [c']) (by simpa using hlen) hr
+          simpa using this
+
+theorem secondPass (nn nc : Bool) :
+    ∀ (cs : List (List TRes)) (acc : List (List TRes)) (bits : List Bool),
+      (∀ c ∈ cs, ∀ r ∈ c, fixflag r = false) →
+      cs.foldlM (fun (acc, bits) ch => do
+        let (parts, bits) ← splitChain nn nc (ch.length + 1) ch ch [] [] bits
+        pure (acc ++ parts, bits)) (acc, bits) = some (acc ++ cs, bits) := by
+  intro cs
+  induction cs with
+  | nil => intro acc bits _; simp
+  | cons c cs ih =>
+    intro acc bits hfix
+    simp only [List.foldlM_cons]
+    rw [splitChain_nocut nn nc c (hfix c (by simp))]
+    have := ih (acc ++ [c]) bits (fun c' hc' => hfix c' (by simp [hc']))
+    simpa using this
 
 theorem set_termini_chainwise_core (nn nc : Bool) (chains out : List (List TRes)) (bits : List Bool)
     (hlen : bits.length ≥ chains.length)
     (h1 : (chains.zip bits).mapM (fun (c, b) => assignTermini nn nc b c) = some out)
     (hfix : ∀ c ∈ out, ∀ r ∈ c, fixflag r = false) :
     setTermini nn nc chains bits = some out := by
-  sorry
+  unfold setTermini
+  have h := firstPass nn nc chains bits out [] hlen h1
+  simp only [List.nil_append] at h
+  rw [h]
+  have h2 := secondPass nn nc out [] (bits.drop chains.length) hfix
+  simp only [List.nil_append] at h2
+  simp only [Option.pure_def, Option.bind_eq_bind, Option.bind_some] at h2 ⊢
+  simp only [h2, Option.bind_some]
+
+/-! ### formal charge -/
+
+theorem patched_append (r : RInfo) (q p : String) (hne : str p ≠ str q) :
+    patched { r with patches := r.patches ++ [str q] } p = patched r p := by
+  simp only [patched, List.contains_eq_mem, List.mem_append, List.mem_singleton, hne, or_false]
+
+theorem sideState_append (r : RInfo) :
+    sideState { r with patches := r.patches ++ [str "NEUTRAL-NTERM"] } = sideState r := by
+  unfold sideState
+  simp only [patched_append r "NEUTRAL-NTERM" "AR0" (by decide), patched_append r "NEUTRAL-NTERM" "ASH" (by decide),
+    patched_append r "NEUTRAL-NTERM" "CYX" (by decide), patched_append r "NEUTRAL-NTERM" "CYM" (by decide),
+    patched_append r "NEUTRAL-NTERM" "GLH" (by decide), patched_append r "NEUTRAL-NTERM" "LYN" (by decide),
+    patched_append r "NEUTRAL-NTERM" "TYM" (by decide)]
+  rfl
 
 theorem neutral_nterm_shift_core (r : RInfo) (ha : isAmino r = true) (hp : r.cls ≠ str "PRO") (hn : r.isNterm = true)
     (hnot : patched r "NEUTRAL-NTERM" = false) (c : Int) (hc : formalCharge r = some c) :
     formalCharge { r with patches := r.patches ++ [str "NEUTRAL-NTERM"] } = some (c - 1) ∨
     sideState { r with patches := r.patches ++ [str "NEUTRAL-NTERM"] } ≠ sideState r := by
-  sorry
+  left
+  generalize hr' : ({ r with patches := r.patches ++ [str "NEUTRAL-NTERM"] } : RInfo) = r'
+  have hpat : patched r' "NEUTRAL-NTERM" = true := by subst hr'; simp [patched]
+  have ha' : isAmino r' = true := by subst hr'; exact ha
+  have hn' : r'.isNterm = true := by subst hr'; exact hn
+  have hcls : r'.cls = r.cls := by subst hr'; rfl
+  have hside : sideState r' = sideState r := by subst hr'; exact sideState_append r
+  unfold formalCharge at hc ⊢
+  rw [hside, if_pos ha', hcls]
+  rw [if_pos ha] at hc
+  cases hs : sideState r with
+  | none => rw [hs] at hc; cases hc
+  | some s =>
+    rw [hs] at hc
+    simp only [Option.some.injEq] at hc ⊢
+    subst hc
+    simp only [hn, hn', hnot, hpat, if_true, hp, ne_eq, not_false_eq_true, decide_true, Bool.and_true,
+      Bool.false_eq_true, if_false]
+    omega
 
 theorem formal_range_core (r : RInfo) (c : Int) (h : formalCharge r = some c) : -2 ≤ c ∧ c ≤ 2 := by
-  sorry
+  unfold formalCharge at h
+  split at h
+  · split at h
+    · cases h
+    · simp only [Option.some.injEq] at h
+      subst h
+      constructor <;> (repeat' split) <;> omega
+  · split at h
+    · cases h; split <;> omega
+    · split at h
+      · cases h; omega
+      · cases h
 
 end P2P.Proofs.Termini
